@@ -13,6 +13,8 @@ import Blue.Proofs.VerifierNewest
 import Blue.Proofs.OrphansLive
 import Blue.Proofs.ConstsTieC08
 import Blue.Proofs.LogRetire
+import Blue.Proofs.SstRetire
+import Blue.Proofs.VerifierProgress
 /-! # Property C08 — no needed file is ever removed; clean-up removes only unreferenced files
 
 Property theorems only.  `Blue.FileRefs` is the transition system of
@@ -58,7 +60,27 @@ SST is in `sst/`, whole and synced (`log_trashed_only_after_manifest_sync`; as p
 list: `log_trashed_after_append_then_sync`); at every crash point,
 both persistence models, every acknowledged batch is in a log still in the directory or in a listed,
 present, whole SST (`crash_keeps_needed_files` and its two readings); the swapped order loses an
-acknowledged batch (`swapped_order_loses_batch`). -/
+acknowledged batch (`swapped_order_loses_batch`).
+
+SST retirement ("an SST is moved to the trash only when the manifest edit that drops it is durable
+and its batches have another home") is block `SstRetire`, on the same protocol model: at every
+`rename sst/x → trash/` of every history neither the durable nor the durable + pending manifest lists
+`x`, and every batch of `x` is in a listed SST that is in `sst/`, whole and synced
+(`sst_trashed_only_after_manifest_sync`; as positions in the op list — `maniAppend tx` with `x` in
+`tx.rms` and the batches of `x` in `tx.adds`, then `maniSync`, then the rename —
+`sst_trashed_after_append_then_sync`); at every crash point, both persistence models, every listed SST
+is in `sst/` whole (`crash_keeps_listed_ssts`); inputs renamed between the append and the sync make
+the reopen after a crash fail (`swapped_order_loses_sst`).  The model's compactions write outputs
+under FRESH names (`validCompact`), as in `crash_keeps_named_files`.
+
+Progress of the verifier is block `VerifierProgress`: `Processable` (every entry passes — check,
+readable files, parsable `L`, plan names in `trash/` — each in the directory the entries before it
+leave) is a HYPOTHESIS, not derived from an honest store history; under it a pass returns `Ok`,
+makes at least 3 durable actions per entry, unlinks every processed fragment and exactly the names
+of the plans, and the next pass is empty (`verifier_pass_progress`, `verifier_passes_converge`).
+A pending intent left by a crash is finished by the first actions of the next pass that HAS an entry,
+i.e. after the next manifest rollover (`verifier_crash_then_rollover_converges`); until then every pass
+is empty and the files stay in `trash/` (`verifier_leftover_stays_until_rollover`: a leak, not a loss). -/
 namespace Blue.Props.C08
 open Blue.FileRefs
 
@@ -610,6 +632,223 @@ example :
     ∧ g.logs = [(1, ⟨[1], [1]⟩)] := by decide
 -- END LogRetire
 
+-- BEGIN SstRetire
+/-! ## SST retirement (compaction inputs) -/
+
+/-- what "SST `x` may be moved to the trash in `fs`" means: neither the DURABLE manifest (model (b))
+    nor the durable + pending one (model (a)) lists `x`, and under each every batch of `x` is in a
+    listed SST that is in `sst/`, whole and synced -/
+theorem sst_retirable_means (fs : Blue.StoreCrash.Fs) (x : Blue.StoreCrash.Name) :
+    Blue.StoreCrash.SstRetirable fs x ↔
+      (x ∉ Blue.StoreCrash.live fs.maniDurable
+        ∧ ∀ b ∈ x, ∃ nm ∈ Blue.StoreCrash.live fs.maniDurable, b ∈ nm
+            ∧ Blue.StoreCrash.find fs.sst nm = some ⟨nm, nm⟩)
+      ∧ (x ∉ Blue.StoreCrash.live (fs.maniDurable ++ fs.maniPending)
+        ∧ ∀ b ∈ x, ∃ nm ∈ Blue.StoreCrash.live (fs.maniDurable ++ fs.maniPending), b ∈ nm
+            ∧ Blue.StoreCrash.find fs.sst nm = some ⟨nm, nm⟩) := Iff.rfl
+
+/-- **an SST is moved to the trash only after the manifest edit that drops it — and lists the
+    outputs holding its batches — is durable**: in the op list of EVERY history of the model's
+    alphabet (puts, flushes, recoveries, compactions of any selection of files into any fresh-named
+    outputs holding the same batches; from any block-boundary state, so from the empty store:
+    `inv0`), at every `rename sst/x → trash/` — every way of writing the list as
+    `pre ++ sstTrash x :: post` — the program-order prefix `pre` has left the file system in a state
+    where `x` is retirable -/
+theorem sst_trashed_only_after_manifest_sync (h : List Blue.StoreCrash.Client) (fs : Blue.StoreCrash.Fs)
+    (kv : Blue.StoreCrash.Kv) (hi : Blue.StoreCrash.Inv fs kv) (pre post : List Blue.StoreCrash.Op)
+    (x : Blue.StoreCrash.Name) (hsplit : Blue.StoreCrash.opsOf h kv = pre ++ .sstTrash x :: post) :
+    Blue.StoreCrash.SstRetirable (Blue.StoreCrash.run fs pre) x :=
+  Blue.StoreCrash.sst_trashed_only_after_manifest_sync h fs kv hi pre post x hsplit
+
+/-- **program order** (every history, from every client state): every `rename sst/x → trash/` is
+    preceded in the op list by a `maniAppend tx` whose transaction removes `x` and whose additions
+    hold every batch of `x`, and, between that append and the rename, by a `maniSync` -/
+theorem sst_trashed_after_append_then_sync (h : List Blue.StoreCrash.Client) (kv : Blue.StoreCrash.Kv)
+    (pre post : List Blue.StoreCrash.Op) (x : Blue.StoreCrash.Name)
+    (hsplit : Blue.StoreCrash.opsOf h kv = pre ++ .sstTrash x :: post) :
+    ∃ tx a b c, x ∈ tx.rms ∧ (∀ n ∈ x, ∃ o ∈ tx.adds, n ∈ o)
+      ∧ pre = a ++ Blue.StoreCrash.Op.maniAppend tx :: (b ++ Blue.StoreCrash.Op.maniSync :: c) :=
+  Blue.StoreCrash.sst_trashed_after_append_then_sync h kv pre post x hsplit
+
+/-- … block by block: every `sstTrash` of a put / flush / compaction / recovery block is guarded -/
+theorem sst_retire_ok_every_block {fs : Blue.StoreCrash.Fs} {kv : Blue.StoreCrash.Kv} (hi : Blue.StoreCrash.Inv fs kv)
+    (c : Blue.StoreCrash.Client) :
+    Blue.StoreCrash.SstRetireOk fs (Blue.StoreCrash.block kv c) := Blue.StoreCrash.sstRetireOk_block hi c
+
+/-- **no listed SST is in the trash or gone**: at every crash point of every history, under both
+    persistence models, every SST the manifest lists — the durable manifest under (b), the durable +
+    pending one under (a) — is in `sst/` and whole (its synced bytes under (b)) -/
+theorem crash_keeps_listed_ssts (h : List Blue.StoreCrash.Client) (n : Nat) :
+    let g := Blue.StoreCrash.run Blue.StoreCrash.fs0 ((Blue.StoreCrash.opsOf h Blue.StoreCrash.kv0).take n)
+    (∀ nm ∈ Blue.StoreCrash.live g.maniDurable, (Blue.StoreCrash.find g.sst nm).map (·.durable) = some nm)
+    ∧ (∀ nm ∈ Blue.StoreCrash.live (g.maniDurable ++ g.maniPending),
+        (Blue.StoreCrash.find g.sst nm).map (·.data) = some nm) :=
+  Blue.StoreCrash.crash_keeps_listed_ssts h n
+
+/-- … and right after the rename of `x` the durable manifest does not list `x` and every batch of
+    `x` is in a listed SST that is in `sst/`, whole and synced -/
+theorem trashed_sst_batches_listed (h : List Blue.StoreCrash.Client) (pre post : List Blue.StoreCrash.Op)
+    (x : Blue.StoreCrash.Name)
+    (hsplit : Blue.StoreCrash.opsOf h Blue.StoreCrash.kv0 = pre ++ .sstTrash x :: post) :
+    let g := Blue.StoreCrash.run Blue.StoreCrash.fs0 (pre ++ [.sstTrash x])
+    x ∉ Blue.StoreCrash.live g.maniDurable
+    ∧ ∀ b ∈ x, ∃ nm ∈ Blue.StoreCrash.live g.maniDurable, b ∈ nm
+        ∧ Blue.StoreCrash.find g.sst nm = some ⟨nm, nm⟩ :=
+  Blue.StoreCrash.trashed_sst_batches_listed h pre post x hsplit
+
+/-- **the swapped order** (inputs renamed after the manifest append, before its sync): the first
+    input is renamed in a state in which it is not retirable, and a crash after that rename (or after
+    both, before the sync) leaves a durable manifest that names a file in the trash — the reopen
+    fails under model (b); the real order reopens with both batches at the same cuts and its two
+    renames are guarded -/
+theorem swapped_order_loses_sst :
+    let pre := Blue.StoreCrash.opsOf [.put, .flush, .put, .flush] Blue.StoreCrash.kv0
+    let ops := pre ++ Blue.StoreCrash.compactSwapped [[1, 0]] [[0], [1]]
+    let real := Blue.StoreCrash.opsOf [.put, .flush, .put, .flush, .compact (fun _ => true) [[1, 0]]] Blue.StoreCrash.kv0
+    ops[27]? = some (.sstTrash [0]) ∧ ops[28]? = some (.sstTrash [1]) ∧ ops[29]? = some .maniSync
+    ∧ Blue.StoreCrash.acked (ops.take 27) = 2
+    ∧ ¬ Blue.StoreCrash.SstRetirable (Blue.StoreCrash.run Blue.StoreCrash.fs0 (ops.take 27)) [0]
+    ∧ [0] ∈ Blue.StoreCrash.live (Blue.StoreCrash.run Blue.StoreCrash.fs0 (ops.take 28)).maniDurable
+    ∧ Blue.StoreCrash.find (Blue.StoreCrash.run Blue.StoreCrash.fs0 (ops.take 28)).sst [0] = none
+    ∧ Blue.StoreCrash.recoverB (Blue.StoreCrash.run Blue.StoreCrash.fs0 (ops.take 28)) = none
+    ∧ Blue.StoreCrash.recoverB (Blue.StoreCrash.run Blue.StoreCrash.fs0 (ops.take 29)) = none
+    ∧ Blue.StoreCrash.recoverB (Blue.StoreCrash.run Blue.StoreCrash.fs0 ops) = some [1, 0]
+    ∧ real[28]? = some (.sstTrash [0]) ∧ real[29]? = some (.sstTrash [1])
+    ∧ Blue.StoreCrash.SstRetirable (Blue.StoreCrash.run Blue.StoreCrash.fs0 (real.take 28)) [0]
+    ∧ Blue.StoreCrash.SstRetirable (Blue.StoreCrash.run Blue.StoreCrash.fs0 (real.take 29)) [1]
+    ∧ Blue.StoreCrash.recoverB (Blue.StoreCrash.run Blue.StoreCrash.fs0 (real.take 28)) = some [1, 0]
+    ∧ Blue.StoreCrash.recoverB (Blue.StoreCrash.run Blue.StoreCrash.fs0 (real.take 29)) = some [1, 0]
+    ∧ Blue.StoreCrash.recoverB (Blue.StoreCrash.run Blue.StoreCrash.fs0 (real.take 27)) = some [0, 1] :=
+  Blue.StoreCrash.swapped_order_loses_sst
+
+/-- non-vacuity: the history put, flush, put, flush, compaction of both files into `[1, 0]` has 30
+    operations; the two renames are at positions 28 and 29, after `maniAppend` (26) and `maniSync`
+    (27); before the sync the first input is not retirable, after it it is; at the crash point 28
+    the durable manifest lists `[1, 0]` alone, which is in `sst/` whole, and `[0]` is still in `sst/` -/
+example :
+    let ops := Blue.StoreCrash.opsOf [.put, .flush, .put, .flush, .compact (fun _ => true) [[1, 0]]] Blue.StoreCrash.kv0
+    ops.length = 30
+    ∧ ops[26]? = some (.maniAppend ⟨[[1, 0]], [[0], [1]]⟩) ∧ ops[27]? = some .maniSync
+    ∧ ops[28]? = some (.sstTrash [0]) ∧ ops[29]? = some (.sstTrash [1])
+    ∧ ¬ Blue.StoreCrash.SstRetirable (Blue.StoreCrash.run Blue.StoreCrash.fs0 (ops.take 27)) [0]
+    ∧ Blue.StoreCrash.SstRetirable (Blue.StoreCrash.run Blue.StoreCrash.fs0 (ops.take 28)) [0]
+    ∧ Blue.StoreCrash.live (Blue.StoreCrash.run Blue.StoreCrash.fs0 (ops.take 28)).maniDurable = [[1, 0]]
+    ∧ Blue.StoreCrash.find (Blue.StoreCrash.run Blue.StoreCrash.fs0 (ops.take 28)).sst [1, 0] = some ⟨[1, 0], [1, 0]⟩
+    ∧ Blue.StoreCrash.find (Blue.StoreCrash.run Blue.StoreCrash.fs0 (ops.take 28)).sst [0] = some ⟨[0], [0]⟩
+    ∧ Blue.StoreCrash.find (Blue.StoreCrash.run Blue.StoreCrash.fs0 (ops.take 29)).sst [0] = none := by decide
+/-- … and the theorems applied to it (the split at position 28) -/
+example :=
+  sst_trashed_only_after_manifest_sync [.put, .flush, .put, .flush, .compact (fun _ => true) [[1, 0]]]
+    Blue.StoreCrash.fs0 Blue.StoreCrash.kv0 Blue.StoreCrash.inv0
+    ((Blue.StoreCrash.opsOf [.put, .flush, .put, .flush, .compact (fun _ => true) [[1, 0]]] Blue.StoreCrash.kv0).take 28)
+    [.sstTrash [1]] [0] (by decide)
+-- END SstRetire
+
+-- BEGIN VerifierProgress
+/-! ## progress of the offline verifier -/
+section VerifierProgress
+open Blue.Verifier Blue.Mani
+variable {A : Type}
+
+/-- what "the entry `(n, es)` is processable in `g`, leaving `g'`" means: `n` is not below `M`; the
+    files the edits read are in `trash/` or `sst/` and the checker passes the fragment against the
+    accumulator `O` (`checkAll`); the `L` fields parse (`plan`); every name of the plan is in
+    `trash/`; `g'` is `g` with the intent logged and executed -/
+theorem processable_means (C : Checker A) (g : Dir A) (n : Nat) (es : List Edit) (g' : Dir A) :
+    absStep C g n es = some g' ↔
+      outOfOrder g n = false ∧ ∃ o names, checkAll C g es = some o ∧ plan C.asWas (laterRm g n) es = some names
+        ∧ (∀ x, x ∈ names → x ∈ g.trash) ∧ g' = finish (g.apply (Act.intent n es names o)) :=
+  Blue.Verifier.processable_means C g n es g'
+
+/-- **a pass makes progress** — for EVERY number of entries and every fragment contents: over a
+    sorted directory with nothing pending (`Clean`: nothing logged, `M` below every fragment) whose
+    entries are all processable (`Processable`: each in the directory the ones before it leave — the
+    checker passing each fragment is part of this HYPOTHESIS), `LsmVerifier::verify` returns `Ok`,
+    performs at least 3 durable actions per entry, among them the unlink of the entry's fragment,
+    and ends with: only the newest fragment left, nothing pending, `M` at the last processed number,
+    `trash/` holding exactly what it held minus the names of the plans, `sst/` and `MANIFEST` as they
+    were -/
+theorem verifier_pass_progress (C : Checker A) (d : Dir A) (hs : Sorted d) (hcl : Clean d) (hnil : d.frags ≠ [])
+    (hp : Processable C d (entries d)) :
+    (pass C d).2 = .ok
+    ∧ 3 * (entries d).length ≤ (pass C d).1.length
+    ∧ (∀ f, f ∈ entries d → Act.unlinkFrag f.1 ∈ (pass C d).1)
+    ∧ (final C d).frags = [d.frags.getLast hnil]
+    ∧ Clean (final C d)
+    ∧ (final C d).vM = (match (entries d).getLast? with | some f => some f.1 | none => d.vM)
+    ∧ (∀ x, x ∈ (final C d).trash ↔ x ∈ d.trash ∧ x ∉ plans C d (entries d))
+    ∧ (final C d).sst = d.sst ∧ (final C d).live = d.live :=
+  pass_progress C d hs hcl hnil hp
+
+/-- … where every name of `plans` is a name of the plan of one of the entries, computed against the
+    removals of the fragments numbered above it and of `MANIFEST` IN THE DIRECTORY THE PASS STARTED
+    FROM (so `plan_names_recorded_removals` says what it is, and — repaired plan — it is no file a
+    later fragment or `MANIFEST` removes again) -/
+theorem verifier_progress_unlinks_plans (C : Checker A) (d : Dir A) (hs : Sorted d) (hn : NoneEmpty d)
+    (hnil : d.frags ≠ []) (x : Name) (hx : x ∈ plans C d (entries d)) :
+    ∃ f, f ∈ entries d ∧ ∃ names, plan C.asWas (laterRm d f.1) f.2 = some names ∧ x ∈ names :=
+  plans_mem C (entries d) d _ (ctx_entries d hs hn hnil) x hx
+
+/-- **repeated passes reach a fixed point, and one pass suffices**: after such a pass no entry is
+    left and the next pass is empty; with a crash after any number `k` of the pass's actions, the
+    restarted pass ends — once a still-pending intent is executed — in the same directory -/
+theorem verifier_passes_converge (C : Checker A) (d : Dir A) (hs : Sorted d) (hcl : Clean d) (hnil : d.frags ≠ [])
+    (hp : Processable C d (entries d)) :
+    (entries (final C d) = [] ∧ pass C (final C d) = ([], .ok) ∧ final C (final C d) = final C d)
+    ∧ ∀ k, finish (final C (run d ((pass C d).1.take k))) = final C d :=
+  ⟨pass_fixed_point C d hs hcl hnil hp, crashed_pass_restart_reaches_fixed_point C d hs hcl hnil hp⟩
+
+/-- **a pending intent is finished by the first pass after the next rollover**: a pass over `d0` is
+    cut after any number `k` of its actions; `d'` is ANY sorted directory with the `verify/` state
+    the crash left (the store does not write `verify/`), at least one entry (the store has rolled
+    its manifest over) and no fragment numbered below `M`.  The pass over `d'` starts with the
+    actions that execute the intent — it reaches `finish d'` —, whatever the checker says about
+    the entry; where it ends, no name logged at the crash is in `trash/` and the fragment `M` named
+    is gone. -/
+theorem verifier_crash_then_rollover_converges (C : Checker A) (d0 : Dir A) (hs0 : Sorted d0) (hn0 : NoneEmpty d0)
+    (k : Nat) (d' : Dir A) (hv : d'.vstrs = (run d0 ((pass C d0).1.take k)).vstrs)
+    (hM : d'.vM = (run d0 ((pass C d0).1.take k)).vM) (hs : Sorted d')
+    (hent : entries d' ≠ []) (hord : ∀ m, d'.vM = some m → ∀ f, f ∈ d'.frags → m ≤ f.1) :
+    (∃ j, run d' ((pass C d').1.take j) = finish d')
+    ∧ (∀ x, x ∈ (run d0 ((pass C d0).1.take k)).vstrs → x ∉ (final C d').trash)
+    ∧ (∀ m, d'.vM = some m → ∀ f, f ∈ (final C d').frags → f.1 ≠ m) :=
+  crash_then_rollover_converges C d0 hs0 hn0 k d' hv hM hs hent hord
+
+/-- **until then the leftover stays** (a leak of `trash/` files, not a loss of a needed one): in a
+    directory without an entry — at most one numbered fragment — every pass is empty and changes
+    nothing, whatever is logged in `verify/` -/
+theorem verifier_leftover_stays_until_rollover (C : Checker A) (d : Dir A) (h : entries d = []) :
+    pass C d = ([], .ok) ∧ final C d = d :=
+  leftover_stays_until_rollover C d h
+
+/-- non-vacuity of the progress theorems: `dP` — four chained fragments + MANIFEST, THREE entries, two
+    files in `trash/` — meets every hypothesis (so does `dW`, two entries); its pass makes 13
+    actions (≥ 9), empties `trash/`, leaves fragment 4 and `M = 3` -/
+example : Sorted dP ∧ Clean dP ∧ dP.frags ≠ [] ∧ (entries dP).length = 3 ∧ Processable chainChecker dP (entries dP) :=
+  dP_hyps
+example : Sorted dW ∧ Clean dW ∧ dW.frags ≠ [] ∧ (entries dW).length = 2 ∧ Processable chainChecker dW (entries dW) :=
+  dW_clean
+example : (pass chainChecker dP).2 = .ok ∧ (pass chainChecker dP).1.length = 13
+    ∧ (final chainChecker dP).trash = [] ∧ (final chainChecker dP).frags.map (·.1) = [4]
+    ∧ (final chainChecker dP).vM = some 3
+    ∧ plans chainChecker dP (entries dP) = [trashSst [97], trashSst [98]] := by decide
+example := verifier_pass_progress chainChecker dP dP_hyps.1 dP_hyps.2.1 dP_hyps.2.2.1 dP_hyps.2.2.2.2
+example := verifier_passes_converge chainChecker dP dP_hyps.1 dP_hyps.2.1 dP_hyps.2.2.1 dP_hyps.2.2.2.2
+
+/-- non-vacuity of the two theorems on pending intents: `dCut` (`exD` cut at action 2) has no entry,
+    one name logged and the file in `trash/`: its passes are empty; `dCutRolled` (one more fragment)
+    meets every hypothesis of `verifier_crash_then_rollover_converges` with `d0 = exD`, `k = 2`, and
+    its pass empties `trash/` and the log -/
+example : entries dCut = [] ∧ dCut.vstrs = [trashSst [120]] ∧ dCut.trash = [trashSst [120]] ∧ dCut.vM = some 1 :=
+  dCut_leftover
+example := verifier_leftover_stays_until_rollover chainChecker dCut dCut_leftover.1
+example := verifier_crash_then_rollover_converges chainChecker exD (by unfold Sorted; decide) (fun _ => rfl) 2 dCutRolled
+  dCutRolled_hyps.1 dCutRolled_hyps.2.1 dCutRolled_hyps.2.2.1 dCutRolled_hyps.2.2.2.1 dCutRolled_hyps.2.2.2.2
+example : (final chainChecker dCutRolled).trash = [] ∧ (final chainChecker dCutRolled).vstrs = [] := dCutRolled_pass
+
+end VerifierProgress
+-- END VerifierProgress
+
 end Blue.Props.C08
 
 #print axioms Blue.Props.C08.refcount_invariant_preserved
@@ -651,3 +890,16 @@ end Blue.Props.C08
 #print axioms Blue.Props.C08.crash_before_retire_keeps_log
 #print axioms Blue.Props.C08.crash_after_retire_has_sst
 #print axioms Blue.Props.C08.swapped_order_loses_batch
+#print axioms Blue.Props.C08.sst_retirable_means
+#print axioms Blue.Props.C08.sst_trashed_only_after_manifest_sync
+#print axioms Blue.Props.C08.sst_trashed_after_append_then_sync
+#print axioms Blue.Props.C08.sst_retire_ok_every_block
+#print axioms Blue.Props.C08.crash_keeps_listed_ssts
+#print axioms Blue.Props.C08.trashed_sst_batches_listed
+#print axioms Blue.Props.C08.swapped_order_loses_sst
+#print axioms Blue.Props.C08.processable_means
+#print axioms Blue.Props.C08.verifier_pass_progress
+#print axioms Blue.Props.C08.verifier_progress_unlinks_plans
+#print axioms Blue.Props.C08.verifier_passes_converge
+#print axioms Blue.Props.C08.verifier_crash_then_rollover_converges
+#print axioms Blue.Props.C08.verifier_leftover_stays_until_rollover
